@@ -186,6 +186,15 @@ func genEntry(r *rand.Rand, i int) string {
 
 var tmoChoices = []int{0, 0, 40, 65, 90, 115}
 
+// tmoKV: the timeout part of an input: mostly whole seconds well apart from each other, sometimes a short one
+// (2 s / 3 s, written in milliseconds) that lies BELOW the guns' 15 s default.
+func tmoKV(r *rand.Rand) string {
+	if r.Intn(6) == 0 {
+		return fmt.Sprintf("tmoms=%d", pick(r, []int{2000, 3000}))
+	}
+	return fmt.Sprintf("tmo=%d", pick(r, tmoChoices))
+}
+
 func schedFor(r *rand.Rand, n, shots int) string {
 	sched := make([]byte, shots)
 	for i := range sched {
@@ -201,7 +210,7 @@ func genJSON(r *rand.Rand) string {
 	for i := range es {
 		es[i] = genEntry(r, i)
 	}
-	return fmt.Sprintf("mode=json n=%d sc=%d tmo=%d oe=%d e=%s", n, pick(r, []int{0, 0, 1, 2}), pick(r, tmoChoices), r.Intn(2), strings.Join(es, ";"))
+	return fmt.Sprintf("mode=json n=%d sc=%d %s oe=%d e=%s", n, pick(r, []int{0, 0, 1, 2}), tmoKV(r), r.Intn(2), strings.Join(es, ";"))
 }
 
 // genJSONSched: the same entries fired by hand, entry k by instance sched[k] (exact per-entry trace, connections).
@@ -212,7 +221,7 @@ func genJSONSched(r *rand.Rand) string {
 	for i := range es {
 		es[i] = genEntry(r, i)
 	}
-	return fmt.Sprintf("mode=json run=sched n=%d sc=%d tmo=%d oe=%d sched=%s e=%s", n, pick(r, []int{0, 0, 1, 2, 3, 7}), pick(r, tmoChoices),
+	return fmt.Sprintf("mode=json run=sched n=%d sc=%d %s oe=%d sched=%s e=%s", n, pick(r, []int{0, 0, 1, 2, 3, 7}), tmoKV(r),
 		r.Intn(2), schedFor(r, n, k), strings.Join(es, ";"))
 }
 
@@ -325,7 +334,7 @@ func genScen(r *rand.Rand, engine bool) string {
 		}
 		scns = append(scns, fmt.Sprintf("s%d:%d:%s", s, 1+r.Intn(3), strings.Join(reqs, "+")))
 	}
-	base := fmt.Sprintf("mode=scen run=%%s n=%d tmo=%d users=%s g=%s calls=%s scns=%s", n, pick(r, tmoChoices),
+	base := fmt.Sprintf("mode=scen run=%%s n=%d %s users=%s g=%s calls=%s scns=%s", n, tmoKV(r),
 		strings.Join(users, ","), c20lib.Enc(randText(r, 5, "ghijkl-09")), strings.Join(calls, ";"), strings.Join(scns, ";"))
 	if engine {
 		return fmt.Sprintf(base, "engine") + fmt.Sprintf(" shots=%d", 8+r.Intn(30))
@@ -390,12 +399,106 @@ func genScenSlow(r *rand.Rand, engine bool) string {
 	return fmt.Sprintf(base, "sched") + " sched=0"
 }
 
+// ---------------------------------------------------------------- exhaustive small enumerations (thorough tier)
+
+func allScheds(n, l int) []string {
+	out := []string{""}
+	for i := 0; i < l; i++ {
+		var next []string
+		for _, s := range out {
+			for g := 0; g < n; g++ {
+				next = append(next, s+strconv.Itoa(g))
+			}
+		}
+		out = next
+	}
+	return out
+}
+
+// genExhaustive: (a) every assignment of 4 shots to 2 guns and of 3 shots to 3 guns for three scenario shapes
+// (templated metadata on a call shared by two scenarios; auth token chaining; colliding joined names), (b) every
+// pool shape n = 1..4 x shared clients 0..4 for one entry list, (c) the payload typing table: every field of every
+// method under both of its names with every kind of value, alone and together with a valid sibling.
+func genExhaustive() []string {
+	var out []string
+	shapes := []string{
+		"users=1,2,3 g=g calls=h|" + svc + "Hello|x-user:u-{U},x-g:{G}|name:s.{U}|u scns=s1:1:h;s2:1:h+h",
+		"users=1,2,3 g=g calls=auth|" + svc + "Auth|x-user:{U}|login:s.{U},pass:s.{U}|u;list|" + svc + "List|authorization:Bearer~{A},x-uid:{I}|user_id:n.{I},token:s.{A}|- scns=s1:1:auth+list",
+		"users=1,2 g=g calls=c|" + svc + "Hello|x-k:one-{U},payload:p1-{G}|name:s.one.{U}|u;b_c|" + svc + "Hello|x-k:two-{U},payload:p2-{G}|name:s.two.{U}|u scns=a_b:1:c;a:1:b_c",
+	}
+	for _, sh := range shapes {
+		for _, sc := range allScheds(2, 4) {
+			out = append(out, "mode=scen run=sched n=2 tmo=0 "+sh+" sched="+sc)
+		}
+		for _, sc := range allScheds(3, 3) {
+			out = append(out, "mode=scen run=sched n=3 tmo=40 "+sh+" sched="+sc)
+		}
+	}
+	entries := "a|" + svc + "Hello|K:v|name:s.a;b|" + svc + "Nope||;c|" + svc + "Hello||name:n.5;d|" + svc + "List|x:y|user_id:n.3;e|" + svc + "Stats||;f|" +
+		svc + "Hello||name:s.f;g|" + svc + "Order||item_id:s.7;h|" + svc + "Auth||login:s.1,pass:s.1"
+	for n := 1; n <= 4; n++ {
+		for sc := 0; sc <= 4; sc++ {
+			sched := ""
+			for k := 0; k < 8; k++ {
+				sched += strconv.Itoa(k % n)
+			}
+			out = append(out, fmt.Sprintf("mode=json run=sched n=%d sc=%d tmo=0 oe=0 sched=%s e=%s", n, sc, sched, entries))
+			out = append(out, fmt.Sprintf("mode=json n=%d sc=%d tmo=0 oe=1 e=%s", n, sc, entries))
+		}
+	}
+	strVals := []string{"s.abc", "s.", "z", "n.5", "b.true", "o", "f.1.5", "s.a%22b%5Cc", "s.%C3%A9~x"}
+	intVals := []string{"n.7", "n.0", "n.-3", "s.7", "s.-0", "z", "s.abc", "f.1.5", "b.false", "o", "n.9007199254740993", "s.9223372036854775807",
+		"n.9223372036854775808", "n.-9223372036854775808", "s.-9223372036854775809", "s."}
+	var es []string
+	k := 0
+	for _, m := range methodNames {
+		for fi, f := range methods[m] {
+			vals := strVals
+			if f.isInt {
+				vals = intVals
+			}
+			for _, name := range []string{f.name, f.json} {
+				if name == f.name && f.name == f.json && fi < 0 {
+					continue
+				}
+				for _, v := range vals {
+					es = append(es, fmt.Sprintf("x%d|%s%s||%s:%s", k, svc, m, name, v))
+					k++
+					// together with a valid sibling field
+					for fj, g := range methods[m] {
+						if fj == fi {
+							continue
+						}
+						sib := "s.sib"
+						if g.isInt {
+							sib = "n.11"
+						}
+						es = append(es, fmt.Sprintf("x%d|%s%s|m:v|%s:%s,%s:%s", k, svc, m, g.json, sib, name, v))
+						k++
+					}
+				}
+			}
+		}
+	}
+	for i := 0; i < len(es); i += 60 {
+		j := i + 60
+		if j > len(es) {
+			j = len(es)
+		}
+		out = append(out, fmt.Sprintf("mode=json run=sched n=2 sc=1 tmo=0 oe=0 sched=%s e=%s", strings.Repeat("01", 30)[:j-i], strings.Join(es[i:j], ";")))
+	}
+	return out
+}
+
 func gen(r *rand.Rand, tier string) []string {
 	nj, njs, nl, ns, nc, ne, nsl := 40, 40, 1, 60, 10, 6, 1
 	if tier == "thorough" {
-		nj, njs, nl, ns, nc, ne, nsl = 1500, 1500, 12, 2500, 300, 150, 6
+		nj, njs, nl, ns, nc, ne, nsl = 3000, 3000, 24, 5000, 600, 300, 10
 	}
 	out := []string{"mode=table"}
+	if tier == "thorough" {
+		out = append(out, genExhaustive()...)
+	}
 	for i := 0; i < nsl; i++ {
 		out = append(out, genScenSlow(r, i%2 == 1))
 	}
